@@ -48,6 +48,90 @@ def find_committer(ctx):
     return out[0]
 
 
+def committer_kind(ctx, committer):
+    """'relative' (the parameter is added to the first extent) or 'absolute' (the parameter becomes the first extent)."""
+    from ..pathcond import canon as _canon
+    ps = [p for p in committer.params if p != 'self']
+    if not ps:
+        return 'relative'
+    p0 = ps[0]
+    for f_, v_, st_ in committer.cls.attr_exprs.get('_shape', []):
+        if f_ is committer:
+            t = _canon(committer, v_).replace(' ', '')
+            if t.startswith(f'({p0},)') or t.startswith(f'({p0},*') or t.startswith(f'(int({p0}),)'):
+                return 'absolute'
+    return 'relative'
+
+
+def commit_delta(ctx, committer, node, func):
+    """The increment of the first extent that a call of the committer commits, as an expression: the argument itself for
+    a relative committer; for an absolute one `<old length> + X` gives X, anything else V gives `V - len(<receiver>)`."""
+    from ..pathcond import inline as _inl
+    ps = [p for p in committer.params if p != 'self']
+    arg = get_arg(node, 0, ps[0] if ps else 'lenincrease')
+    if arg is None:
+        arg = get_arg(node, 0, 'lenincrease')
+    if arg is None or committer_kind(ctx, committer) == 'relative':
+        return arg
+    recv = norm(node.func.value) if isinstance(node.func, ast.Attribute) else 'self'
+    olds = {f'{recv}._shape[0]', f'{recv}.shape[0]', f'len({recv})'}
+    v = _inl(func, arg)
+    for e in (arg, v):
+        if isinstance(e, ast.BinOp) and isinstance(e.op, ast.Add):
+            if norm(e.left) in olds:
+                return e.right
+            if norm(e.right) in olds:
+                return e.left
+    return ast.BinOp(left=arg, op=ast.Sub(), right=ast.Call(func=ast.Name(id='len', ctx=ast.Load()),
+                                                             args=[ast.parse(recv, mode='eval').body], keywords=[]))
+
+
+def stale_base(ctx, committer, node, func):
+    """Absolute committer only: a new length `<base> + <delta>` whose base is a local copy of the length must not be
+    older than the last commit — if another commit (a call that may reach the committer) can run between the statement
+    that copied the length and this call, the copy is stale and the commit un-counts what the other one committed."""
+    if committer_kind(ctx, committer) != 'absolute':
+        return None
+    ps = [p for p in committer.params if p != 'self']
+    arg = get_arg(node, 0, ps[0])
+    if arg is None:
+        return None
+    recv = norm(node.func.value) if isinstance(node.func, ast.Attribute) else 'self'
+    olds = {f'{recv}._shape[0]', f'{recv}.shape[0]', f'len({recv})'}
+    bases = []
+    for x in ast.walk(arg):
+        if isinstance(x, ast.Name) and x.id not in func.params:
+            for v, st in defs_of(func.node, x.id):
+                e = v
+                # one more hop: oldshape = self._shape; oldlen = oldshape[0]
+                if isinstance(e, ast.Subscript) and isinstance(e.value, ast.Name):
+                    for v2, st2 in defs_of(func.node, e.value.id):
+                        if norm(v2) in (f'{recv}._shape', f'{recv}.shape'):
+                            bases.append((x.id, st2))
+                if norm(e) in olds:
+                    bases.append((x.id, st))
+    if not bases:
+        return None
+    g = cfg_of(func)
+    me = g.node_for(node)
+    others = []
+    for n2, cal in ctx.E.callees(func):
+        if not isinstance(n2, ast.Call) or n2 is node:
+            continue
+        if cal is committer or any(c2 is committer for _, c2 in ctx.E.callees(cal)) or \
+                any(c3 is committer for _, c2 in ctx.E.callees(cal) for _, c3 in ctx.E.callees(c2)):
+            others.append(n2)
+    for name, st in bases:
+        d = g.node_for(st)
+        for o in others:
+            on = g.node_for(o)
+            if on != me and g.can_reach(d, on, skip_labels=('exc',)) and g.can_reach(on, me, skip_labels=('exc',)):
+                return (f'the new length is computed from `{name}`, a copy of the length taken at line {st.lineno}, but '
+                        f'`{norm(o)[:50]}` (line {o.lineno}) can commit a length change between that copy and this call: the '
+                        f'absolute commit overwrites the length with a stale base and drops the rows committed in between')
+    return None
+
+
 def find_appenders(ctx):
     """Functions that write through a file-object parameter and return a count."""
     out = []
@@ -248,11 +332,16 @@ def d2_commit_counts(ctx, committer, appenders):
             if cal is not committer or not isinstance(node, ast.Call):
                 continue
             n += 1
-            arg = get_arg(node, 0, 'lenincrease')
+            arg = commit_delta(ctx, committer, node, f)
             construct = f'commit-count::{norm(node.func)}'
             inst = f'{f.qualname}: {norm(node)[:60]}'
             if arg is None:
                 ctx.bad('R-FLOW', 'D2', f, node, construct, inst, detail='committer called without a count')
+                continue
+            stale = stale_base(ctx, committer, node, f)
+            if stale:
+                ctx.bad('R-FLOW', 'D2', f, node, construct + '::fresh-base', inst,
+                        detail=stale)
                 continue
             kinds = count_source(ctx, f, arg, appenders)
             names = derived(f.node, arg)
@@ -263,7 +352,8 @@ def d2_commit_counts(ctx, committer, appenders):
             written = [norm(e.node.func.value) for e in ctx.E.primitives(f)
                        if e.kind in ('WRITE-PATH', 'WRITE-HANDLE') and isinstance(e.node.func, ast.Attribute)]
             a = norm(arg)
-            if any(a in (f'{w}.shape[0]', f'len({w})') for w in written):
+            from ..pathcond import inline as _inl2
+            if any(x in (f'{w}.shape[0]', f'len({w})') for w in written for x in (a, norm(_inl2(f, arg)))):
                 ctx.ok('R-FLOW', 'D2', f, node, construct, inst + ' — length of the array that was written')
                 continue
             # truncate delta: newlen - len(a) with a RESIZE in the same function
